@@ -49,6 +49,8 @@ def _chk_target(args, res, old):
     b = old["baits"]
     nonempty = [r for r in b.data.itertuples(index=False) if r.start != r.end]
     out = list(res.data.itertuples(index=False))
+    if any(r.end <= r.start for r in out):
+        return "target bins of zero or negative width: %r" % ([tuple(r)[:3] for r in out if r.end <= r.start][:3],)
     if not old["split"]:
         if [tuple(r)[:3] for r in out] != [tuple(r)[:3] for r in nonempty]:
             return "without split the non-empty baits must be returned unchanged: %r -> %r" % (spans(b), spans(res))
@@ -146,6 +148,15 @@ def _gen_anti(rng, tier, i, corner=False):
             rows.append((targets.chromosome.iat[0], 0, 100000))
         access = GA(rows)
     avg = rng.choice([200, 1000, 5000, 150000])
+    if not corner and rng.random() < 0.15:
+        # an off-target accessible stretch of exactly the default minimum size (and one a base shorter)
+        from cnvlib.params import MIN_REF_COVERAGE
+        avg = rng.choice([150000, 1000, 5000, 200, 48, 80])
+        mn0 = 2 * int(avg * (2 ** MIN_REF_COVERAGE))
+        tchrom = targets.chromosome.iat[0]
+        other = "chr3" if tchrom != "chr3" else "chr2"
+        rows = [(tchrom, 0, int(targets.end.max()) + 2000), (other, 1000, 1000 + mn0 + 2 * PAD), (other, 900000, 900000 + mn0 + 2 * PAD - 1)]
+        return dict(targets=targets, access=GA(rows), avg=avg, mn=None)
     if corner:
         mn = rng.choice([int(0.8 * avg), avg, int(1.2 * avg)])
     else:
